@@ -59,6 +59,36 @@ static integer_class eval_at(const MIntPoly &p, const integer_class pt[3])
     vals[symbol("z")] = pt[2];
     return p.eval(vals);
 }
+// the variables may be listed in any order: from_dict sorts them and must permute the exponent vectors accordingly
+extern "C" void harness_c22_varorder()
+{
+    static const char *names[] = {"x", "y", "z"};
+    static const unsigned PERM[6][3] = {{0, 1, 2}, {0, 2, 1}, {1, 0, 2}, {1, 2, 0}, {2, 0, 1}, {2, 1, 0}};
+    long B = verif_param("B", 3), V = verif_param("V", 3);
+    integer_class pt[3] = {sym_integer("vx", -V, V)->as_integer_class(), sym_integer("vy", -V, V)->as_integer_class(), sym_integer("vz", -V, V)->as_integer_class()};
+    const unsigned *pm = PERM[verif_choice("perm", 6)];
+    vec_basic vars;
+    for (unsigned k = 0; k < 3; k++)
+        vars.push_back(symbol(names[pm[k]]));
+    umap_uvec_mpz d;
+    integer_class value = 0;
+    for (unsigned t = 0; t < 2; t++) {
+        vec_uint ex;
+        integer_class term = sym_integer("c" + std::to_string(t), -B, B)->as_integer_class(), mon(1);
+        for (unsigned k = 0; k < 3; k++) {
+            unsigned e = (unsigned)verif_choice(("e" + std::to_string(t) + std::to_string(k)).c_str(), 3);
+            ex.push_back(e);
+            mon *= ipow(pt[pm[k]], e); // the k-th exponent belongs to the k-th listed variable
+        }
+        if (d.find(ex) != d.end() || term == 0)
+            continue;
+        d[ex] = term;
+        value += term * mon;
+    }
+    RCP<const MIntPoly> p = MIntPoly::from_dict(vars, std::move(d));
+    verif_assert(eval_at(*p, pt) == value, "from_dict with the variables in any order builds the polynomial it was given");
+    VERIF_END();
+}
 extern "C" void harness_c22()
 {
     long B = verif_param("B", 3), V = verif_param("V", 3);
